@@ -1237,7 +1237,13 @@ func main() {
 		if a.line != b.line {
 			return a.line < b.line
 		}
-		return a.what < b.what
+		if a.what != b.what {
+			return a.what < b.what
+		}
+		if a.kind != b.kind {
+			return a.kind < b.kind
+		}
+		return strings.Join(a.origins, ",") < strings.Join(b.origins, ",")
 	})
 	sort.Strings(globals)
 
